@@ -173,7 +173,7 @@ class Chaos:
     FAULTS = ("oversell_cpu", "oversell_ram", "sus_not_boundary", "sus_suspending", "sus_suspended",
               "sus_unknown", "sus_other_pool", "sus_twice", "pool_range_asg", "pool_range_sus",
               "dep_pending_parent", "dep_order", "dep_late", "construct_completed", "construct_assigned",
-              "construct_cpu0", "construct_ram0", "construct_empty", "construct_dup")
+              "construct_cpu0", "construct_ram0", "construct_empty", "construct_dup", "opcount")
 
     def __init__(self, rng, cfg, knobs, built, mex, unit):
         self.r = rng
@@ -458,6 +458,24 @@ class Chaos:
                 return None
             return cmds + [{"k": "asg", "id": self.label(), "pl": bi, "ops": ops, "cpu": "1",
                             "ram": fstr(ram), "pool": pid, "fault": kind}]
+        if kind == "opcount":
+            # several operators in one container although the pool runs single-operator containers
+            if cfg["multi"]:
+                return None
+            taken = set((c["pl"], i) for c in asgs for i in c["ops"])
+            for bi, b in enumerate(self.built):
+                if b.at > t:
+                    continue
+                ro = [i for i, m in enumerate(b.mops) if (bi, i) not in taken and m.state in (M.P, M.FL)
+                      and all(q.state == M.C for q in m.parents)]
+                pid = r.randrange(len(pools))
+                if len(ro) >= 2 and av[pid][0] >= 1:
+                    ram = self.choose_ram([b.mops[x] for x in ro[:2]], F(1), av[pid][1], pools[pid])
+                    if ram is None:
+                        continue
+                    return cmds + [{"k": "asg", "id": self.label(), "pl": bi, "ops": ro[:2], "cpu": "1", "ram": fstr(ram),
+                                    "pool": pid, "fault": kind}]
+            return None
         if kind.startswith("construct_"):
             ro = ready_ops()
             taken = set((c["pl"], i) for c in asgs for i in c["ops"])
@@ -932,8 +950,23 @@ def _check_counts(built, t):
                                            "histogram": {s.value: hist[s] for s in S}}, t)
 
 
+def _conservation_only(ex, t):
+    """free + allocated = capacity must survive a rejected command too (C03: 'legal or not')"""
+    for p in ex.pools:
+        held = list(p.active_containers) + list(p.suspending_containers)
+        cpu = sum(c.assignment.cpu for c in held)
+        ram = sum(c.assignment.ram for c in held)
+        if abs(p.avail_cpu_pool + cpu - p.max_cpu_pool) > TOL * max(1.0, abs(p.max_cpu_pool)):
+            raise Violation("C03.conservation.cpu", {"pool": p.pool_id, "free": p.avail_cpu_pool, "held": cpu, "capacity": p.max_cpu_pool,
+                                                     "after": "a rejected command"}, t)
+        if abs(p.avail_ram_pool + ram - p.max_ram_pool) > TOL * max(1.0, abs(p.max_ram_pool), abs(ram)):
+            raise Violation("C03.conservation.ram", {"pool": p.pool_id, "free": p.avail_ram_pool, "held": ram, "capacity": p.max_ram_pool,
+                                                     "after": "a rejected command"}, t)
+
+
 def _after_reject(rj, ex, built, prev, t):
     """What an inadmissible decision may leave behind."""
+    _conservation_only(ex, t)
     if rj.kind == "suspend" and rj.info == "twice":
         return  # the first of the two requests is legitimate and may have been carried out
     if rj.kind in ("oversell", "suspend") and isinstance(rj.pool, int) and 0 <= rj.pool < len(ex.pools):
